@@ -345,6 +345,9 @@ func wlCellEvents(id int, sc Scenario, seed int64, pre *spg.WLRecipe, preWL *spg
 		}
 		ev.ND = len(ev.D)
 		ev.PathProd = Limbs(prod)
+		if len(leaves) < 2 {
+			ev.PPC = 1
+		}
 		if out.CfgTouched {
 			ev.Cfg = 1
 		}
